@@ -36,28 +36,28 @@ let cfun s =
 
 type pop = Plain of op | Sync of n
 
-let rec parse_ops = function
+let rec parse_ops asy = function
   | [] -> []
-  | "i" :: k :: v :: c :: r -> Plain (OInsert (ni k, ni v, ni c)) :: parse_ops r
-  | "t" :: k :: v :: c :: d :: r -> Plain (OInsertTtl (ni k, ni v, ni c, ni d)) :: parse_ops r
-  | "g" :: k :: r -> Plain (OGet (ni k)) :: parse_ops r
-  | "f" :: k :: r -> Plain (OFetch (ni k)) :: parse_ops r
-  | "p" :: k :: r -> Plain (OPeek (ni k)) :: parse_ops r
-  | ("e" | "ew") :: k :: v :: c :: r -> Plain (OEntryOrInsert (ni k, ni v, ni c)) :: parse_ops r
-  | "eo" :: k :: r -> Plain (OEntryGet (ni k)) :: parse_ops r
-  | ("c" | "tc") :: k :: f :: r -> Plain (OCompute (ni k, cfun f)) :: parse_ops r
-  | ("cv" | "tv") :: k :: f :: r -> Plain (OComputeVal (ni k, cfun f)) :: parse_ops r
-  | "r" :: k :: r -> Plain (ORemove (ni k)) :: parse_ops r
-  | "x" :: k :: r -> Plain (OInvalidate (ni k)) :: parse_ops r
-  | "C" :: r -> Plain OClear :: parse_ops r
-  | "mg" :: ks :: r -> Plain (OMultiGet (klist ks)) :: parse_ops r
-  | "mi" :: its :: r -> Plain (OMultiInsert (items its)) :: parse_ops r
-  | "mr" :: ks :: r -> Plain (OMultiRemove (klist ks)) :: parse_ops r
-  | "mx" :: ks :: r -> Plain (OMultiInvalidate (klist ks)) :: parse_ops r
-  | "m" :: r -> Plain (OMaint []) :: parse_ops r
-  | "a" :: d :: r -> Plain (OAdvance (ni d)) :: parse_ops r
-  | "$" :: r -> Plain OCost :: parse_ops r
-  | "y" :: v :: r -> Sync (ni v) :: parse_ops r
+  | "i" :: k :: v :: c :: r -> Plain (OInsert (ni k, ni v, ni c)) :: parse_ops asy r
+  | "t" :: k :: v :: c :: d :: r -> Plain (OInsertTtl (ni k, ni v, ni c, ni d)) :: parse_ops asy r
+  | "g" :: k :: r -> Plain (OGet (ni k)) :: parse_ops asy r
+  | "f" :: k :: r -> Plain (OFetch (ni k)) :: parse_ops asy r
+  | "p" :: k :: r -> Plain (OPeek (ni k)) :: parse_ops asy r
+  | ("e" | "ew") :: k :: v :: c :: r -> Plain (OEntryOrInsert (ni k, ni v, ni c)) :: parse_ops asy r
+  | "eo" :: k :: r -> Plain (OEntryGet (ni k)) :: parse_ops asy r
+  | ("c" | "tc") :: k :: f :: r -> Plain (OCompute (ni k, cfun f)) :: parse_ops asy r
+  | ("cv" | "tv") :: k :: f :: r -> Plain (OComputeVal (ni k, cfun f)) :: parse_ops asy r
+  | "r" :: k :: r -> Plain (ORemove (ni k)) :: parse_ops asy r
+  | "x" :: k :: r -> Plain (OInvalidate (ni k)) :: parse_ops asy r
+  | "C" :: r -> Plain OClear :: parse_ops asy r
+  | "mg" :: ks :: r -> Plain (if asy then OMultiGetAsync (klist ks) else OMultiGet (klist ks)) :: parse_ops asy r
+  | "mi" :: its :: r -> Plain (OMultiInsert (items its)) :: parse_ops asy r
+  | "mr" :: ks :: r -> Plain (OMultiRemove (klist ks)) :: parse_ops asy r
+  | "mx" :: ks :: r -> Plain (OMultiInvalidate (klist ks)) :: parse_ops asy r
+  | "m" :: r -> Plain (OMaint []) :: parse_ops asy r
+  | "a" :: d :: r -> Plain (OAdvance (ni d)) :: parse_ops asy r
+  | "$" :: r -> Plain OCost :: parse_ops asy r
+  | "y" :: v :: r -> Sync (ni v) :: parse_ops asy r
   | t :: _ -> failwith ("bad op token " ^ t)
 
 let si x = string_of_int (int_of_n x)
@@ -89,7 +89,7 @@ let rec drop n l = if n <= 0 then l else match l with [] -> [] | _ :: t -> drop 
 
 let run (toks : string list) : string =
   match toks with
-  | pol :: n :: cap :: ttl :: tti :: wheel :: lis :: opp :: intro :: now0 :: _h :: rest ->
+  | pol :: n :: cap :: ttl :: tti :: wheel :: lis :: opp :: intro :: now0 :: h :: rest ->
       let p = policy_of pol in
       let cfg = { c_shards = ni n;
                   c_cap = (if cap = "0" then u64_MAX else ni cap);
@@ -114,7 +114,7 @@ let run (toks : string list) : string =
               let l = List.sort compare
                   (List.map (fun nt -> (int_of_n nt.n_key, int_of_n nt.n_val, reason_str nt.n_reason)) fresh) in
               "n[" ^ String.concat "," (List.map (fun (k, v, r) ->
-                  string_of_int k ^ ":" ^ string_of_int v ^ ":" ^ r) l) ^ "]") (parse_ops rest) in
+                  string_of_int k ^ ":" ^ string_of_int v ^ ":" ^ r) l) ^ "]") (parse_ops (h = "a") rest) in
       String.concat " ; " outs
   | _ -> failwith "short cache case header"
 
